@@ -782,3 +782,83 @@ def c17(a):
     v.sample({"w": 32, "op": "to_int", "a": "Float(nan)", "required": "error value"})
     v.assumptions.append("built with overflow-checks = on, so that a silently wrapped result would surface as a panic or a wrong value")
     return v.finish()
+
+
+ALL_ENTRIES = "flat,flat_wo,flat_re,deep,f2d,d2f,f2d2f,parse_f64,parse_wo_f64,deep_f64,eval_str_f64,eval_str_f32,parse_val,stmt,stmt_val"
+
+
+@register("C06")
+def c06(a):
+    v = Verdict("C06", a.tier, "model_checking")
+    what = "an input text crashed the library"
+    q = a.tier == "quick"
+    # (1) all token sequences: no failure state in the models, accepted iff well-formed, meaning preserved; replayed
+    tag = "C06/mctok"
+    cfg = work(tag + ".cfg")
+    write_cfg(cfg, {"MaxLen": 7 if q else 8, "Emit": True, "CallStack": True, "BumpGuard": True, "FoldRule": "local"},
+              invariants=["AcceptIffWellFormed", "NoFailureState", "Meaning", "SloppyAgree", "EmitCases"])
+    res, summ, obsp = pipeline.gen_replay_shard("MC_Tok", cfg, tag, ["expr", "--totality", "--entries", "flat,flat_wo,flat_re,deep,f2d,d2f,f2d2f"], workers=16)
+    if res.violated or res.error:
+        print(res.out[-3000:])
+        raise vlib.ToolError(f"MC_Tok: {res.violated or res.error} - spec bug")
+    v.add_tlc(res, "MC_Tok")
+    ntok = summ["cases"]
+    v.cov["traces_validated_against_impl"] += summ["runs"]
+    v.cov["evaluations"] += summ["runs"]
+    if summ["cases"] + 1 != res.distinct:
+        raise vlib.ToolError(f"tally mismatch: TLC enumerated {res.distinct - 1} token sequences, the recorder replayed {summ['cases']}")
+    if summ["forwarded"]:
+        judge_and_classify(v, "C06", [obsp], "dirA-tok", what)
+    # (2) all character strings over the totality alphabet through every entry point incl. the built-in tables
+    tag = "C06/mcstr"
+    cfg = work(tag + ".cfg")
+    write_cfg(cfg, {"T": ("<-", "TStr"), "Alphabet": ("<-", "AStr"), "MaxLen": 5 if q else 6, "Emit": True, "CallStack": True,
+                    "BumpGuard": True}, invariants=["LexAgree", "CallAgree", "NoPanic", "EmitCases"])
+    res, summ, obsp = pipeline.gen_replay_shard("MC_Lex", cfg, tag, ["expr", "--totality", "--entries", ALL_ENTRIES], workers=16)
+    if res.violated or res.error:
+        print(res.out[-3000:])
+        raise vlib.ToolError(f"MC_Lex(TStr): {res.violated or res.error} - spec bug")
+    v.add_tlc(res, "MC_Lex[TStr]")
+    nstr = summ["cases"]
+    v.cov["traces_validated_against_impl"] += summ["runs"]
+    v.cov["evaluations"] += summ["runs"]
+    if summ["cases"] + 1 != res.distinct:
+        raise vlib.ToolError(f"tally mismatch: TLC enumerated {res.distinct - 1} strings, the recorder replayed {summ['cases']}")
+    if summ["forwarded"]:
+        judge_and_classify(v, "C06", [obsp], "dirA-str", what)
+    v.notes.append(f"direction A: all {ntok} token sequences up to length {7 if q else 8} over 8 token kinds and all {nstr} character strings up "
+                   f"to length {5 if q else 6} over 14 characters (letters, digit, dot, blank, parens, comma, braces, operators, an illegal "
+                   f"character, a 2-byte and a 4-byte code point) through every entry point ({ALL_ENTRIES}) with follow-up evaluation, "
+                   "conversion, unparse, listings and differentiation; tallies equal the TLC state counts")
+    # (3) big and hostile inputs in separate processes (default 8 MiB main-thread stack)
+    n = {"bigsoup": 40 if q else 600, "bigwf": 16 if q else 200, "nested": 40 if q else 600, "soup": 3000 if q else 60000,
+         "mutant": 3000 if q else 60000, "dmg-float": 1500 if q else 30000, "dmg-val": 1500 if q else 30000}
+    jobs = []
+    for fam, cnt in n.items():
+        ents = ALL_ENTRIES if fam in ("dmg-float", "dmg-val", "soup", "mutant") else "flat,flat_wo,deep,f2d,d2f"
+        for k in range(2):
+            tag = f"C06/fuzz-{fam}-{k}"
+            jobs.append(lambda tag=tag, fam=fam, cnt=cnt, k=k, ents=ents: (tag,) + pipeline.fuzz_replay(
+                tag, ["fuzz-expr", "--family", fam, "--n", str(cnt // 2), "--stream", str(20 + k)], ["--totality", "--entries", ents]))
+    good = []
+    for tag, summ, obsp in parallel(jobs):
+        if summ.get("crashed"):
+            v.violation({"pipeline": tag, "detail": summ}, f"{what}: the recorder process was aborted (stack exhaustion / abort) in {tag}")
+        else:
+            v.cov["traces_validated_against_impl"] += summ["runs"]
+            v.cov["evaluations"] += summ["runs"]
+            if summ["forwarded"]:
+                good.append((tag, obsp))
+    for p, (r, verdicts) in parallel([(lambda t=t, p=p: (p, pipeline.judge_expr(p, t.replace("/", "-")))) for t, p in good], 8):
+        v.add_tlc(r, f"Judge_Expr[{os.path.basename(p)}]")
+        file_verdicts(v, p, verdicts, what)
+    v.notes.append("direction B: token soup of 200-1000 tokens, well-formed expressions of ~1000 tokens, nesting 20-100 levels, short soup, "
+                   "mutated texts, damaged texts over the real float and value tables; each pipeline is its own process, an abort is a violation; "
+                   "value-type operand catalogues as folded literals are covered by C17's literal route")
+    v.cov["rule"] = "every token sequence / character string up to the bound (exhaustive, tallied against TLC's state count)"
+    v.cov["distinct_nontrivial"] = ntok + nstr
+    v.cov["exhaustive"] = True
+    v.sample({"text": "( 1 * ) sn x", "outcome": "err"})
+    v.assumptions += ["'never hangs' is decided as 'returned' on everything explored (a hang would stall the check = tool error, not silently pass)",
+                      "stack bound read against the platform default main-thread stack of the recorder process"]
+    return v.finish()
